@@ -187,3 +187,27 @@ func (m *Model) Adopt(n, observed string) bool {
 	}
 	return false
 }
+
+// Clone copies the model (used to compute the state an event must lead to before the event is delivered).
+func (m *Model) Clone() *Model {
+	c := NewModel()
+	for k, v := range m.Owner {
+		c.Owner[k] = v
+	}
+	for k, v := range m.Amb {
+		c.Amb[k] = v
+	}
+	for k, v := range m.Cert {
+		c.Cert[k] = append([]int{}, v...)
+	}
+	for k, v := range m.CA {
+		c.CA[k] = append([]int{}, v...)
+	}
+	for k, v := range m.PrevCert {
+		c.PrevCert[k] = v
+	}
+	for k, v := range m.PrevCA {
+		c.PrevCA[k] = v
+	}
+	return c
+}
